@@ -360,4 +360,35 @@ def canon_enum(limit_fail=3):
                     got = obj.sorted_keys()
                     if got != want and len(fails) < limit_fail + 2:
                         fails.append({"witness": {"canon": True, "class": cls.__name__, "keys": keys}, "detail": f"{cls.__name__} with keys {keys!r}: sorted_keys() = {got!r}, expected {want!r}"})
+    # families of classes: a subclass with priority names of its own (and one that inherits them), sorted after / before its parent - the
+    # order is the one declared for the class of the object, whatever was sorted earlier in the process
+    from icalendar.caselessdict import CaselessDict
+    for base in (CaselessDict, cal.Event, cal.Calendar, prop.vRecur):
+        for first in ("parent", "child", "grandchild"):
+            class P(base):
+                canonical_order = ("SUMMARY", "DTSTART", "B", "A")
+            class Ch(P):
+                canonical_order = ("UID", "A", "SUMMARY")
+            class G(Ch):
+                pass
+            fam = {"parent": P, "child": Ch, "grandchild": G}
+            seq = [first] + [x for x in ("parent", "child", "grandchild") if x != first] + [first]
+            for which in seq:
+                cls = fam[which]
+                obj = cls()
+                for k in list(obj.keys()):
+                    del obj[k]
+                keys = ["summary", "Uid", "x-b", "A", "dtstart", "B"]
+                for k in keys:
+                    obj[k] = []
+                co = cls.canonical_order
+                up = [k.upper() for k in keys]
+                want = sorted((k for k in up if k in co), key=co.index) + sorted(k for k in up if k not in co)
+                n += 1
+                got = obj.sorted_keys()
+                got_items = [k for k, _ in obj.sorted_items()]
+                if (got != want or got_items != want) and len(fails) < limit_fail + 4:
+                    fails.append({"witness": {"canon": True, "family": base.__name__, "sorted_first": first, "class": which},
+                                  "detail": f"a subclass family of {base.__name__} (parent order {P.canonical_order!r}, child order {Ch.canonical_order!r}), "
+                                            f"classes sorted in the order {seq!r}: {which}.sorted_keys() = {got!r}, sorted_items keys = {got_items!r}, expected {want!r}"})
     return fails, n
